@@ -256,6 +256,37 @@ def extra_checks(rng, tier, notes):
                 out.append((rec, {"err": type(e).__name__ + ": " + str(e)[:200]}, "metric operation raised"))
     notes.append(f"integrate/average/derivative/metric_weighted relations checked on {n} random arrays")
     out.extend(weighted_forms(rng, tier, notes))
+    out.extend(enumeration_tie(notes))
+    return out
+
+
+def enumeration_tie(notes):
+    """metrics.iterate_axis_combinations against the model's axis_combinations, directly and
+    exhaustively: every tuple of 1-4 distinct axis names drawn from four (64 inputs, every order)
+    plus tuples with a repeated name; yields compared in order, blocks as sets."""
+    from xgcm.metrics import iterate_axis_combinations
+    pool = ["X", "Y", "Z", "T"]
+    inputs = [list(p) for k in (1, 2, 3, 4) for p in itertools.permutations(pool, k)]
+    inputs += [["X", "X"], ["X", "Y", "X"], ["Y", "X", "X", "Z"]]
+    terms, recs = [], []
+    for ax in inputs:
+        try:
+            ys = [[sorted(b) for b in y] for y in iterate_axis_combinations(tuple(ax))]
+        except Exception as e:
+            ys = [[["<raised " + type(e).__name__ + ">"]]]
+        recs.append((ax, ys))
+        terms.append("(" + cstrs(ax) + ", " + C.clist(C.clist(cstrs(b) for b in y) for y in ys) + ")")
+    imports = IMPORTS
+    sf, mf, af, errors = C.run_shards(ID, imports, "(list string * list (list (list string)))", "run10c", terms,
+                                      shard_size=200, scope="nat_scope", tag="enum")
+    out = []
+    for e in errors:
+        out.append(({"enumeration": "evaluator"}, {"err": e[:300]}, "the enumeration comparison did not evaluate"))
+    for i in sorted(set(sf) | set(mf)):
+        ax, ys = recs[i]
+        out.append(({"axes": ax}, {"yielded": ys},
+                    f"iterate_axis_combinations({ax}) enumerates differently from the model's axis_combinations"))
+    notes.append(f"iterate_axis_combinations compared with the model on {len(inputs)} axis tuples (all orders of 1-4 of 4 names)")
     return out
 
 
